@@ -43,6 +43,15 @@ def cases(ctx):
         c["agg"] = gen.pick(rng, aggr.SHARED + aggr.XONLY)
         if c["agg"] in aggr.SHARED:
             c.update(aggr.agg_inputs(rng, c["n"]))
+            if i % 12 == 5 and c["n"] >= 2:
+                # one row weighs next to nothing against the others (1 : 2^-28 ... 2^-33, exact): whether its cell
+                # counts as empty must not depend on how many other blocks the cube has
+                w = numpy.ones(c["n"])
+                w[int(rng.integers(0, c["n"]))] = 2.0 ** -int(gen.pick(rng, [28, 29, 30, 31, 33]))
+                c["weights"] = {"kind": "array", "values": w}
+                c["fact"] = {"values": (rng.integers(-8, 9, size=c["n"]) / 4.0).astype(float), "validity": None, "dyadic": True}
+                c["agg"] = gen.pick(rng, ["mean", "mean", "count", "valid_count"])
+                c["one_featherweight_row"] = True
         else:
             c.update(aggr.xonly_inputs(rng, c["n"], c["agg"]))
         yield c
